@@ -1,4 +1,5 @@
 import DimodModel.Store
+import DimodModel.Heap
 import DimodModel.Wire
 open Wire SSM Store
 
@@ -47,8 +48,82 @@ def parseMOp? : List String → Option MOp
   | ["addtocqm"] => some .addToCqmCopy | ["view"] => some .view
   | _ => none
 
+
+/-! ### heap model of BQM / QM / CQM objects (`DimodModel/Heap.lean`) -/
+namespace HeapDrv
+open MHeap
+
+/-- a BQM at cells 0–2 (cy object 2), a second one at 3–5 (cy object 5) -/
+def hB : Heap := { cell := fun a => match a with
+    | 0 => .coeffs [1, 2] | 1 => .labels [7, 8] | 2 => .cy 0 1
+    | 3 => .coeffs [5] | 4 => .labels [7] | 5 => .cy 3 4 | _ => .free, next := 6 }
+
+/-- a BQM at 0–2 and a CQM: objective 3, C++ CQM 4 (one constraint, cell 8), constraint labels 5, variables 6, cy CQM 7 -/
+def hCcell : Nat → Cell
+  | 0 => .coeffs [1, 2] | 1 => .labels [7, 8] | 2 => .cy 0 1
+  | 3 => .coeffs [4] | 4 => .cqm 3 [8] | 5 => .labels [100] | 6 => .labels [7] | 7 => .cycqm 4 6 5 | 8 => .coeffs [6]
+  | _ => .free
+def hC : Heap := { cell := hCcell, next := 9 }
+
+def mg : Merge := ⟨fun a b => a ++ b, fun a b => a ++ b.filter (fun x => !a.contains x)⟩
+def neg : Post := ⟨fun c => c.map (fun x => -x), id⟩
+
+def parseCall? : List String → Option Call
+  | ["copy"] => some .copy | ["pos"] => some .copy | ["deepcopy"] => some .deepcopy
+  | ["pickle"] => some (.pickle mg) | ["construct"] => some (.construct mg) | ["frommodel"] => some (.fromBqm mg)
+  | ["relabelcopy"] => some (.inplaceFalse ⟨id, fun l => l.map (· + 1)⟩) | ["relabelintscopy"] => some (.inplaceFalse ⟨id, fun l => List.range l.length⟩)
+  | ["changevartypecopy"] => some (.inplaceFalse neg) | ["fixvariablescopy"] => some (.inplaceFalse ⟨fun c => c.drop 1, fun l => l.drop 1⟩)
+  | ["spintobinarycopy", _] => some (.inplaceFalse neg)
+  | ["arith"] => some (.arithNum ⟨fun c => c ++ [3], id⟩) | ["radd", _] => some (.arithNum ⟨fun c => c ++ [0], id⟩) | ["neg"] => some (.arithNum neg)
+  | ["addmodel"] => some (.addModel mg) | ["submodel"] => some (.subModel mg neg) | ["mulmodel"] => some (.mulModel mg)
+  | ["addpromote"] => some (.addPromote mg mg mg)
+  | ["view"] => some .view | ["iadd"] => some (.iadd mg)
+  | _ => none
+
+def b01 (b : Bool) : String := if b then "1" else "0"
+
+def step (ws : List String) : String :=
+  match ws with
+  | "hcall" :: rest => match parseCall? rest with
+    | some c =>
+      let r := c.run hB 2 5
+      let unchanged := obs r.1 2 == obs hB 2 && obs r.1 5 == obs hB 5
+      s!"ok data={b01 (r.2 == 2)} variables={b01 (varsOf r.1 r.2 == varsOf hB 2)} receiver_unchanged={b01 (unchanged || r.2 == 2)}"
+    | none => "bad-op"
+  | ["hadd", kind, copy, co] =>
+    let cp := copy == "1"
+    let src := obs hC 2
+    let fin (h' : Heap) (held : List Rat) : String :=
+      s!"ok source_unchanged={b01 (obs h' 2 == src)} source_cleared={b01 (obs h' 2 == ([], []))} constraint_holds_data={b01 (held == src.1)}"
+    match kind with
+    | "constraint" => let r := addConstraintFromModel hC 7 2 cp id mg (· ++ [101]); fin r.1 (coeffsAt r.1 r.2)
+    | "comparison" => let r := addConstraint hC 7 2 cp id mg (· ++ [101]); fin r.1 (coeffsAt r.1 r.2)
+    | "discrete" => let r := addDiscreteFromComparison hC 7 2 cp (co == "1") id id mg (· ++ [101]); fin r.1 (coeffsAt r.1 r.2)
+    | "discretemodel" => let r := addDiscreteFromModel hC 7 2 cp (co == "1") id id mg (· ++ [101]); fin r.1 (coeffsAt r.1 r.2)
+    | "objective" => let h' := setObjective hC 7 2 (co == "1") id mg; fin h' (objectiveViewRead h' 7)
+    | "fromqm" => let r := fromQuadraticModel hC 2 (co == "1") id mg; fin r.1 (objectiveViewRead r.1 r.2)
+    | _ => "bad-op"
+  | ["hcqm", op] =>
+    let r? : Option (Heap × Nat) := match op with
+      | "deepcopy" => some (cqmDeepcopy hC 7)
+      | "fixvariablescopy" => some (CCall.run hC 7 (.fixVariablesCopy (·.drop 1) (·.drop 1) (·.drop 1)))
+      | "inplacefalse" => some (CCall.run hC 7 (.inplaceFalse [.vars (·.map (· + 1)), .objective (·.map (fun x => -x)), .constraint 0 (·.map (fun x => -x))]))
+      | _ => none
+    match r? with
+    | some r =>
+      let fp (h : Heap) (d : Nat) : List Nat := d :: cppOf h d :: varsOf h d :: clabelsOf h d :: objectiveOf h (cppOf h d) :: constraintsOf h (cppOf h d)
+      let shared := (fp r.1 r.2).any fun a => (fp r.1 7).contains a
+      s!"ok variables={b01 (varsOf r.1 r.2 == varsOf hC 7)} clabels={b01 (clabelsOf r.1 r.2 == clabelsOf hC 7)} shared={b01 shared} receiver_unchanged={b01 (cobs r.1 7 == cobs hC 7)}"
+    | none => "bad-op"
+  | _ => "bad-op"
+
+end HeapDrv
+
 def step (line : String) : String :=
   match line.trimAscii.toString.splitOn " " with
+  | "hcall" :: rest => HeapDrv.step ("hcall" :: rest)
+  | "hadd" :: rest => HeapDrv.step ("hadd" :: rest)
+  | "hcqm" :: rest => HeapDrv.step ("hcqm" :: rest)
   | "ss" :: rows :: nested :: rest => match rows.toNat?, nested.toNat?, parseOp? rest with
     | some rows, some nested, some op =>
       let (st, o) := initial rows nested
